@@ -55,6 +55,14 @@ from pathlib import Path
 from bcc import gen_io
 
 KNOWN_KEYS = set()
+# classes decided on the INPUT (NOTES_C10.md).  Their exact witnesses come from FIXED, seed-independent inputs (the escaper
+# enumeration, the models gen_io.build(family, "fixed", i) of FIXED_MODELS, the shipped files); members of a class met in the
+# seeded part carry the witness "random:<class>"
+INPUT_CLASS_KEYS = {"sbml:id-digits-escape", "sbml:bounds-above-default", "sbml:group-gene-member", "sbml:gene-empty-name",
+                    "sbml:charge-none", "sbml:empty-reaction-invalid", "sbml:no-objective-invalid"}
+FIXED_MODELS = {"digits": 10, "genegroup": 6, "noname": 6, "nocharge": 6, "emptyreaction": 4, "noobjective": 4, "above": 4}
+FIXED_DIGIT_LEN = 4      # strings of the digit class are enumerated (and listed as witnesses) up to this length
+SEEDED_CAP = 2000        # distinct witnesses kept per key from the seeded part (the fixed part is never capped)
 
 ALPHA1 = "a1_-.45"
 ALPHA2 = "GRM_6x-"
@@ -120,26 +128,58 @@ def _escaper_key(pair, s):
     return "sbml:id-digits-escape" if DIGIT_CLASS.search(s) else f"sbml:escaper-{pair}"
 
 
+def _escaper_witness(pair, s):
+    return f"escaper({pair}, {s!r})"
+
+
 def _unit_escapers(args):
+    """exhaustive part (fixed): strings of the digit class only up to FIXED_DIGIT_LEN; every failure is reported"""
     _quiet()
     alphabet, length, first_chars = args
     n = 0
-    fails = {}
+    fails, other = [], {}
     for first in first_chars:
         for rest in itertools.product(alphabet, repeat=length - 1):
             s = first + "".join(rest)
+            in_class = bool(DIGIT_CLASS.search(s))
+            if in_class and length > FIXED_DIGIT_LEN:
+                continue
             for pair in PAIRS:
                 n += 1
                 f = check_escaper(pair, s)
                 if f:
                     key = _escaper_key(pair, s)
-                    cur = fails.get(key)
-                    if cur is None or (len(s), s) < (len(cur["replay"]["id"]), cur["replay"]["id"]):
-                        fails[key] = {"key": key, "failure": f, "replay": {"kind": "escaper", "pair": pair, "id": s},
-                                      "count": (cur or {}).get("count", 0) + 1}
-                    else:
-                        cur["count"] += 1
-    return {"kind": "escapers", "n": n, "fails": list(fails.values())}
+                    if not in_class:
+                        other[key] = other.get(key, 0) + 1
+                        if other[key] > 300:         # a broken escaper fails on (almost) every string
+                            continue
+                    fails.append({"key": key, "witness": _escaper_witness(pair, s), "part": "fixed", "failure": f,
+                                  "replay": {"kind": "escaper", "pair": pair, "id": s}})
+    return {"kind": "escapers", "n": n, "fails": fails}
+
+
+def _unit_escapers_random(args):
+    """seeded part: random longer strings, two thirds of them from the digit class (witness "random:<class>")"""
+    import random
+    _quiet()
+    seed, count = args
+    rng = random.Random(f"esc/{seed}")
+    n = 0
+    fails = []
+    alpha = ALPHA1 + "bZ9:/"
+    for _ in range(count):
+        while True:
+            s = "".join(rng.choice(alpha) for _ in range(rng.randint(5, 9)))
+            if bool(DIGIT_CLASS.search(s)) == (rng.random() < 0.67):
+                break
+        for pair in PAIRS:
+            n += 1
+            f = check_escaper(pair, s)
+            if f:
+                key = _escaper_key(pair, s)
+                fails.append({"key": key, "witness": f"random:{key}" if key in INPUT_CLASS_KEYS else _escaper_witness(pair, s),
+                              "part": "seeded", "failure": f, "replay": {"kind": "escaper", "pair": pair, "id": s}})
+    return {"kind": "escapers", "n": n, "fails": fails}
 
 
 # ----------------------------------------------------------------------------------------------------------------------
@@ -229,8 +269,9 @@ def _aspect_key(aspect, oid, before, after, flags):
     return f"sbml:{aspect}"
 
 
-def check_model(model, channels, modes, tmp, tag, idem_channel=None, validate=True, replay_base=None):
-    """-> (n_checks, [failure dict]); replay_base: dict copied into every failure's replay"""
+def check_model(model, channels, modes, tmp, tag, idem_channel=None, validate=True, replay_base=None, case_id="?", seeded=False):
+    """-> (n_checks, [failure dict]); replay_base: dict copied into every failure's replay; case_id names the input in the
+    witness `<key>|<case_id>|<channel>|<id mode>`; seeded: members of an input class get the witness "random:<class>""""
     import cobra
     fails = []
     n = 0
@@ -242,7 +283,9 @@ def check_model(model, channels, modes, tmp, tag, idem_channel=None, validate=Tr
     def add(key, text, channel, mode):
         rp = dict(replay_base or {})
         rp.update({"channel": channel, "mode": mode, "key": key})
-        fails.append({"key": key, "failure": f"[{channel}, f_replace={'default' if mode == 'default' else '{}'}] {text}", "replay": rp})
+        w = f"random:{key}" if (seeded and key in INPUT_CLASS_KEYS) else f"{key}|{case_id}|{channel}|{mode}"
+        fails.append({"key": key, "witness": w, "part": "seeded" if seeded else "fixed",
+                      "failure": f"[{channel}, f_replace={'default' if mode == 'default' else '{}'}] {text}", "replay": rp})
 
     for mode in modes:
         first_text = None
@@ -305,7 +348,7 @@ def check_model(model, channels, modes, tmp, tag, idem_channel=None, validate=Tr
                     if k is not None and k not in keys:
                         keys[k] = f"validate_sbml_model reports {kind}: {str(msg)[:300]}"
             for k, text in keys.items():
-                add(k, text, "string", mode)
+                add(k, text, "validate", mode)
     return n, fails
 
 
@@ -321,8 +364,11 @@ def _unit_models(args):
             model = gen_io.build(fam, seed, idx)
             models += 1
             modes = ["default"] + (["none"] if gen_io.FAMILIES[fam]["sid_safe"] else [])
-            k, f = check_model(model, CHANNELS, modes, tmp, f"{fam}_{idx}", idem_channel=CHANNELS[(idx + seed) % 4],
-                               replay_base={"kind": "model", "family": fam, "seed": seed, "index": idx})
+            fixed = seed == "fixed"
+            k, f = check_model(model, CHANNELS, modes, tmp, f"{fam}_{idx}",
+                               idem_channel=CHANNELS[(idx + (0 if fixed else seed)) % 4],
+                               replay_base={"kind": "model", "family": fam, "seed": seed, "index": idx},
+                               case_id=f"{fam}#{idx}" if fixed else f"{fam}@{seed}#{idx}", seeded=not fixed)
             n += k
             fails.extend(f)
             if sample is None and fam == "awkward":
@@ -477,8 +523,9 @@ def check_file(path, roundtrip=True, skip_invalid=False):
     name = path.name
     fails = []
 
-    def add(key, text):
-        fails.append({"key": key, "failure": f"{name}: {text}"[:500], "replay": {"kind": "file", "file": str(path), "key": key}})
+    def add(key, text, detail=""):
+        fails.append({"key": key, "witness": f"{key}|file:{name}|{detail}", "part": "fixed", "failure": f"{name}: {text}"[:500],
+                      "replay": {"kind": "file", "file": str(path), "key": key}})
     if skip_invalid:
         # libsbml's own consistency check (units and modelling practice off, as cobra's validator does)
         doc = libsbml.readSBMLFromFile(str(path))
@@ -496,7 +543,7 @@ def check_file(path, roundtrip=True, skip_invalid=False):
         try:
             m = cobra.io.read_sbml_model(str(path), **({} if mode == "default" else {"f_replace": {}}))
         except Exception as e:  # noqa
-            add(f"sbml:file-read-raises-{type((e.__cause__ or e)).__name__}", f"read_sbml_model raised {_exc_text(e)}")
+            add(f"sbml:file-read-raises-{type((e.__cause__ or e)).__name__}", f"read_sbml_model raised {_exc_text(e)}", mode)
             continue
         models[mode] = m
         rmap = (lambda s: s) if mode == "none" else (lambda s: _unescape(s, "R_"))
@@ -508,7 +555,7 @@ def check_file(path, roundtrip=True, skip_invalid=False):
         n += 1
         if want_ids - got_ids or extra - allowed_extra:
             add("sbml:file-reaction-ids", f"[{mode}] reactions missing {sorted(want_ids - got_ids)[:3]} unexpected "
-                                          f"{sorted(extra - allowed_extra)[:3]}")
+                                          f"{sorted(extra - allowed_extra)[:3]}", mode)
             continue
         for rid, d in ext["reactions"].items():
             r = m.reactions.get_by_id(rmap(rid))
@@ -516,24 +563,25 @@ def check_file(path, roundtrip=True, skip_invalid=False):
             want_st = {smap(k): v for k, v in d["stoich"].items() if v != 0}
             got_st = {x.id: float(c) for x, c in r.metabolites.items() if c != 0}
             if want_st != got_st:
-                add("sbml:file-stoichiometry", f"[{mode}] {rid}: file {want_st} model {got_st}")
+                add("sbml:file-stoichiometry", f"[{mode}] {rid}: file {want_st} model {got_st}", f"{mode}|{rid}")
             want_lb = cfg.lower_bound if d["lb"] is None else d["lb"]
             want_ub = cfg.upper_bound if d["ub"] is None else d["ub"]
             if (float(r.lower_bound), float(r.upper_bound)) != (want_lb, want_ub):
-                add("sbml:file-bounds", f"[{mode}] {rid}: file ({want_lb}, {want_ub}) model ({r.lower_bound}, {r.upper_bound})")
+                add("sbml:file-bounds", f"[{mode}] {rid}: file ({want_lb}, {want_ub}) model ({r.lower_bound}, {r.upper_bound})",
+                    f"{mode}|{rid}")
         if ext["objective"] is not None:
             n += 1
             want = {rmap(k): v for k, v in ext["objective"].items() if v != 0}
             got = {r.id: float(c) for r, c in linear_reaction_coefficients(m).items() if c != 0}
             if want != got:
-                add("sbml:file-objective", f"[{mode}] file {want} model {got}")
+                add("sbml:file-objective", f"[{mode}] file {want} model {got}", mode)
             if want and m.objective_direction != ext["direction"]:
-                add("sbml:file-direction", f"[{mode}] file {ext['direction']} model {m.objective_direction}")
+                add("sbml:file-direction", f"[{mode}] file {ext['direction']} model {m.objective_direction}", mode)
     if roundtrip and "default" in models:
         tmp = _tmpdir()
         try:
             k, f = check_model(to_domain(models["default"]), ["path", "string"], ["default"], tmp, "file",
-                               replay_base={"kind": "file", "file": str(path)})
+                               replay_base={"kind": "file", "file": str(path)}, case_id=f"file:{name}", seeded=False)
             n += k
             for x in f:
                 x["failure"] = f"{name} (round trip of the model read from the file): " + x["failure"]
@@ -541,6 +589,7 @@ def check_file(path, roundtrip=True, skip_invalid=False):
                     "sbml:gene-empty-name", "sbml:charge-none", "sbml:id-digits-escape", "sbml:bounds-above-default",
                     "sbml:group-gene-member", "sbml:empty-reaction-invalid", "sbml:no-objective-invalid") else x["key"]
                 x["replay"]["key"] = x["key"]
+                x["witness"] = x["key"] + "|" + x["witness"].split("|", 1)[1]
             fails.extend(f)
         finally:
             shutil.rmtree(tmp, ignore_errors=True)
@@ -796,7 +845,8 @@ def _unit_thirdparty(args):
         else:
             invalid[f"{dialect}/{seed}/{idx}"] = status
         for key, msg in f:
-            fails.append({"key": key, "failure": f"generated {dialect} document {idx}: {msg}"[:500],
+            fails.append({"key": key, "witness": f"{key}|thirdparty:{dialect}@{seed}#{idx}|{msg.split(']')[0][1:]}", "part": "seeded",
+                          "failure": f"generated {dialect} document {idx}: {msg}"[:500],
                           "replay": {"kind": "thirdparty", "dialect": dialect, "seed": seed, "index": idx, "key": key}})
     return {"kind": "thirdparty", "n": n, "checked": checked, "invalid": invalid, "fails": fails}
 
@@ -820,15 +870,17 @@ def _unit_file(args):
         status, n, fails = check_file(path)
     except Exception as e:  # noqa
         status, n = "checked", 0
-        fails = [{"key": f"sbml:file-check-raises-{type(e).__name__}", "failure": f"{Path(path).name}: checking raised {_exc_text(e)}",
-                  "replay": {"kind": "file", "file": str(path)}}]
+        key = f"sbml:file-check-raises-{type(e).__name__}"
+        fails = [{"key": key, "witness": f"{key}|file:{Path(path).name}|", "part": "fixed",
+                  "failure": f"{Path(path).name}: checking raised {_exc_text(e)}", "replay": {"kind": "file", "file": str(path)}}]
     return {"kind": "file", "file": Path(path).name, "status": status, "n": n, "fails": fails}
 
 
 # ----------------------------------------------------------------------------------------------------------------------
 def _dispatch(ka):
     kind, a = ka
-    return {"escapers": _unit_escapers, "models": _unit_models, "file": _unit_file, "thirdparty": _unit_thirdparty}[kind](a)
+    return {"escapers": _unit_escapers, "escapers_random": _unit_escapers_random, "models": _unit_models, "file": _unit_file,
+            "thirdparty": _unit_thirdparty}[kind](a)
 
 
 def _chunks(lst, n):
@@ -855,12 +907,16 @@ def _run_all(units):
             if kind == "models":
                 fam, seed, idx = a[0][0]
                 key = "sbml:id-digits-escape" if fam == "digits" else "sbml:process-aborted"
-                crashes.append({"key": key, "failure": f"the process checking model ({fam}, {seed}, {idx}) died with exit code "
-                                                       f"{r.exitcode} (GLPK aborts on names with control characters)",
+                fixed = seed == "fixed"
+                w = (f"random:{key}" if (not fixed and key in INPUT_CLASS_KEYS)
+                     else f"{key}|{fam}#{idx}|process|" if fixed else f"{key}|{fam}@{seed}#{idx}|process|")
+                crashes.append({"key": key, "witness": w, "part": "fixed" if fixed else "seeded",
+                                "failure": f"the process checking model ({fam}, {seed}, {idx}) died with exit code "
+                                           f"{r.exitcode} (GLPK aborts on names with control characters)",
                                 "replay": {"kind": "model", "family": fam, "seed": seed, "index": idx, "key": key}})
             else:
-                crashes.append({"key": "sbml:process-aborted", "failure": f"the process checking {kind} {a!r:.200} died with exit "
-                                                                          f"code {r.exitcode}",
+                crashes.append({"key": "sbml:process-aborted", "witness": f"sbml:process-aborted|{kind}:{a!r:.120}", "part": "fixed",
+                                "failure": f"the process checking {kind} {a!r:.200} died with exit code {r.exitcode}",
                                 "replay": {"kind": kind, "file": a[0] if kind == "file" else None, "key": "sbml:process-aborted"}})
     return out, crashes
 
